@@ -1,12 +1,89 @@
 -------------------------- MODULE MC_BlockValidity --------------------------
-(* Bounded instances of BlockValidity: the block classes the Byzantine      *)
-(* proposer draws from.                                                      *)
+(* Bounded instances of BlockValidity: validator sets, the blocks the        *)
+(* Byzantine proposer draws from, its second blocks.                         *)
 EXTENDS BlockValidity
 
+(* ---- validator sets ------------------------------------------------------ *)
+(* id = "<Byzantine power>|<power of n1>,<powers of n2.. ascending>"; n1 is    *)
+(* the proposer of round 1 (the harness names the real nodes accordingly and   *)
+(* looks the id up).  The Byzantine power is below a third of the total.       *)
+VS(bp, pw)    == [id |-> "-", bp |-> bp, pw |-> pw, prop |-> <<Byz, "n1">>]
+\* four validators of power 1: round-robin, the Byzantine validator proposes rounds 0 and 4
+U4 == [id |-> "1|1,1,1", bp |-> 1, pw |-> <<1, 1, 1>>, prop |-> <<Byz, "n1", "n2", "n3", Byz, "n1", "n2">>]
+U5 == [VS(1, <<1, 1, 1, 1>>)          EXCEPT !.id = "1|1,1,1,1"]           \* total 5 = 2 mod 3
+U6 == [VS(1, <<1, 1, 1, 1, 1>>)       EXCEPT !.id = "1|1,1,1,1,1"]         \* total 6 = 0 mod 3
+U7 == [VS(1, <<1, 1, 1, 1, 1, 1>>)    EXCEPT !.id = "1|1,1,1,1,1,1"]       \* total 7 = 1 mod 3
+U8 == [VS(1, <<1, 1, 1, 1, 1, 1, 1>>) EXCEPT !.id = "1|1,1,1,1,1,1,1"]     \* total 8 = 2 mod 3
+\* four validators of unequal power
+W5a == [VS(1, <<1, 1, 2>>) EXCEPT !.id = "1|1,1,2"]     \* {1,1,1,2}: total 5
+W5b == [VS(1, <<2, 1, 1>>) EXCEPT !.id = "1|2,1,1"]
+W6a == [VS(1, <<1, 2, 2>>) EXCEPT !.id = "1|1,2,2"]     \* {1,1,2,2}: total 6
+W6b == [VS(1, <<2, 1, 2>>) EXCEPT !.id = "1|2,1,2"]
+W7a == [VS(1, <<2, 2, 2>>) EXCEPT !.id = "1|2,2,2"]     \* {1,2,2,2}: total 7
+W7b == [VS(2, <<1, 2, 2>>) EXCEPT !.id = "2|1,2,2"]
+W7c == [VS(2, <<2, 1, 2>>) EXCEPT !.id = "2|2,1,2"]
+W8a == [VS(2, <<2, 2, 2>>) EXCEPT !.id = "2|2,2,2"]     \* {2,2,2,2}: total 8
+W8b == [VS(1, <<1, 3, 3>>) EXCEPT !.id = "1|1,3,3"]     \* {1,1,3,3}: total 8
+W8c == [VS(1, <<3, 1, 3>>) EXCEPT !.id = "1|3,1,3"]
+W11a == [VS(3, <<2, 3, 3>>) EXCEPT !.id = "3|2,3,3"]    \* {2,3,3,3}: total 11 = 2 mod 3
+W11b == [VS(3, <<3, 2, 3>>) EXCEPT !.id = "3|3,2,3"]
+W11c == [VS(2, <<3, 3, 3>>) EXCEPT !.id = "2|3,3,3"]
+\* five validators of unequal power
+X8a == [VS(1, <<1, 2, 2, 2>>) EXCEPT !.id = "1|1,2,2,2"]   \* {1,1,2,2,2}: total 8
+X8b == [VS(1, <<2, 1, 2, 2>>) EXCEPT !.id = "1|2,1,2,2"]
+X8c == [VS(2, <<1, 1, 2, 2>>) EXCEPT !.id = "2|1,1,2,2"]
+X8d == [VS(2, <<2, 1, 1, 2>>) EXCEPT !.id = "2|2,1,1,2"]
+
+SetsOne    == {U4}
+SetsQuick  == {U4, U5, U6, W5a, W5b, W6a, W6b, W7a, W7b, W7c}
+SetsBig    == SetsQuick \cup {U7, U8, W8a, W8b, W8c, W11a, W11b, W11c, X8a, X8b, X8c, X8d}
+
+Tot(s) == s.bp + SumSeq(s.pw)
+\* powers a set of precommits can add up to
+RECURSIVE SubSums(_)
+SubSums(seq) == IF seq = <<>> THEN {0}
+                ELSE LET R == SubSums(Tail(seq)) IN R \cup {Head(seq) + x : x \in R}
+Sums(s) == SubSums(<<s.bp>> \o s.pw)
+\* the previous commit exactly on the boundary: floor(2T/3) (not more than two thirds) and
+\* one more (more than two thirds), and the whole commit
+Floor23(s) == (2 * Tot(s)) \div 3
+Boundary(s) == {Floor23(s), Floor23(s) + 1} \cap Sums(s)
+
+(* ---- block classes --------------------------------------------------------- *)
 UpTo1 == {{c} : c \in Clauses} \cup {{}}                             \* the control and every clause alone
 UpTo2 == {{c, d} : c \in Clauses, d \in Clauses} \cup {{}}           \* ... and every pair
 UpTo3 == {{c, d, e} : c \in Clauses, d \in Clauses, e \in Clauses} \cup {{}}
 \* the quick instance: pairs plus the two triples the harness' catalogue of concrete
 \* corruptions needs (a neighbouring height at height 1; a previous commit without votes)
 Quick == UpTo2 \cup {{"app", "basic", "height"}, {"ev", "evFull", "lastCommit"}}
+
+Full(s, C)  == {[c |-> c, lcp |-> Tot(s)] : c \in C}
+\* on the boundary: otherwise untouched, or with one more clause violated
+Edgy(s)     == {[c |-> c, lcp |-> p] : c \in {{}, {"chain"}}, p \in Boundary(s)}
+BlocksOf(C, s) == IF s = U4 THEN Full(s, C) \cup Edgy(s) ELSE Full(s, {{}, {"chain"}}) \cup Edgy(s)
+
+BlocksUpTo1(s) == BlocksOf(UpTo1, s)
+BlocksUpTo2(s) == BlocksOf(UpTo2, s)
+BlocksUpTo3(s) == BlocksOf(UpTo3, s)
+BlocksQuick(s) == BlocksOf(Quick, s)
+
+NoSeconds(s, b) == {}
+
+(* ---- two blocks of one Byzantine proposer ----------------------------------- *)
+\* first blocks of the two-block instances
+BlocksTwo(s) == Full(s, {{}, {"basic"}, {"chain"}})
+BlocksTwoBig(s) == Full(s, {{}, {"basic"}, {"chain"}, {"app"}, {"ev", "evFull"}})
+\* the rounds in which the Byzantine validator is the proposer
+ByzRounds(s) == {r \in 0..MaxRound : s.prop[r + 1] = Byz}
+\* a twin keeps the header: the clauses about header fields stay, and of two bodies for one
+\* header at most one matches the header's hashes ("basic")
+HeaderClauses == {"chain", "height", "lastId", "consHash", "valHash"}
+TwinsOf(b, More) ==
+  IF "basic" \in b.c THEN {b.c \ {"basic"}}                 \* B had the foreign body: B2 is the genuine block
+  ELSE {(b.c \cap HeaderClauses) \cup {"basic"} \cup m : m \in More}
+SecondsOf(s, b, More, Fresh) ==
+  {[rel |-> "twin", c |-> c, lcp |-> Tot(s), r |-> r] : c \in TwinsOf(b, More), r \in ByzRounds(s)}
+  \cup {[rel |-> "fresh", c |-> c, lcp |-> Tot(s), r |-> r] : c \in Fresh, r \in ByzRounds(s) \ {0}}
+SecondsTwo(s, b)    == SecondsOf(s, b, {{}}, IF b.c = {} THEN {{"chain"}} ELSE {{}})
+SecondsTwoBig(s, b) == SecondsOf(s, b, {{}, {"lastCommit"}, {"ev", "evFull"}, {"app"}}, {{}, {"chain"}})
 =============================================================================
